@@ -11,6 +11,8 @@ os.makedirs(out, exist_ok=True)
 g = vu.generate(f"/verif/contracts/{unit}.vrs", tree)
 open(f"{out}/{unit}.rs", "w").write(g.main_text)
 open(f"{out}/{unit}_vac.rs", "w").write(g.vac_text)
+for e in g.excluded:
+    print("EXCLUDED", e[0], "::", e[1])
 print("obligations:", len(g.obligations), "fns:", [f.name for f in g.fns], "fired:", g.fired_rules)
 r = vu.run_verus(f"{out}/{unit}.rs")
 print("MAIN ok=", r.ok, r.reason, "verified=", r.verified, "errors=", r.errors, "wall=", round(r.wall_s,1), "smt_ms=", r.smt_ms)
